@@ -662,6 +662,7 @@ def choose_mutation(rng, live, kind):
             c = [x for x in cur if not isinstance(x, (dict, list))]
             if not c: return path, 'append', [it()]
             return path, 'remove', [rng.choice(c)]
+        if op == 'clear': return path, 'clear', []
         a = rng.randrange(0, n); b = rng.randrange(a, n + 1)
         if op == 'slice_set': return path, '__setitem__', [{'slice': [a, b]}, [it() for _ in range(rng.randrange(0, 3))]]
         if op == 'slice_del': return path, '__delitem__', [{'slice': [a, b]}]
@@ -1004,7 +1005,7 @@ def codec_roundtrips(ctx, rng, nrand):
 # ----------------------------------------------------------------------------------------------------
 def run(ctx):
     quick = ctx.tier == 'quick'
-    nrand = 200 if quick else 400
+    nrand = 120 if quick else 300
     all_specs = specs()
     accepted = []
     for s in all_specs:
@@ -1029,7 +1030,7 @@ def run(ctx):
                 r.one(s, v)
     finally:
         r.close()
-    multistep(ctx, 300 if quick else 1500)
+    multistep(ctx, 200 if quick else 1000)
     codec_roundtrips(ctx, ctx.subrng('codec', ctx.shard), nrand * 4)
 
     types = sorted({s['type'] for s in accepted})
@@ -1040,7 +1041,7 @@ def run(ctx):
     ctx.floor('lookup.found', 10000)
     ctx.floor('codec.roundtrips', 1500)
     ctx.floor('decl.mapped', 70)
-    ctx.floor('multistep.programs', 300 if quick else 1200)
+    ctx.floor('multistep.programs', 300 if quick else 800)
     ctx.floor('multistep.values_compared', 4000)
     ctx.floor('multistep.inplace_on_already_modified_object', 100)
     ctx.floor('multistep.assign_tracked_value_of_other_object', 100)
